@@ -504,8 +504,8 @@ var _ = common.EncodeToString
 func init() {
 	register(&PropDef{
 		ID: "C07", Level: "exploration", Engine: "dagcheck",
-		Rule: "one case = one seeded valid DAG fed to a real Hashgraph (through the real core insert path) with ~60 hostile insertion attempts interleaved at random points, drawn from a tamper grammar over the next valid event (every body field altered without re-signing, malformed signatures, and re-signed by the Byzantine creator: wrong/duplicate/negative/skipped indexes, equivocations, emptied/foreign self-parent, unknown other-parent, foreign creator, wrong signer, membership requests not signed by the peer concerned), directly and through the wire decoding path; oracle: harness-side reference predicate + state digest unchanged after refusal + per-creator listing invariants; non-trivial: >=10 hostile attempts judged; distinct by (seed,index,attempts,last hash)",
-		Assumptions: []string{"a valid event being refused is not flagged", "a panic inside the insertion attempt counts as a refusal here (process survival is C08) but the state must still be unchanged"},
+		Rule:          "one case = one seeded valid DAG fed to a real Hashgraph (through the real core insert path) with ~60 hostile insertion attempts interleaved at random points, drawn from a tamper grammar over the next valid event (every body field altered without re-signing, malformed signatures, and re-signed by the Byzantine creator: wrong/duplicate/negative/skipped indexes, equivocations, emptied/foreign self-parent, unknown other-parent, foreign creator, wrong signer, membership requests not signed by the peer concerned), directly and through the wire decoding path; oracle: harness-side reference predicate + state digest unchanged after refusal + per-creator listing invariants; non-trivial: >=10 hostile attempts judged; distinct by (seed,index,attempts,last hash)",
+		Assumptions:   []string{"a valid event being refused is not flagged", "a panic inside the insertion attempt counts as a refusal here (process survival is C08) but the state must still be unchanged"},
 		MinNontrivial: 8,
 		Cases: func(tier string, seed int64) []CaseSpec {
 			cs := dagCases(tier, seed+611953, 64, 900)
